@@ -1123,7 +1123,6 @@ var rootFileReaders = map[string]string{
 	"(*ogen/jsonschema.Parser).file":             "the accessor: falls back to rootFile only when the context's file is zero (root document)",
 	"(*ogen/openapi/parser.parser).wrapLocation": "fallback when the file handed in is zero",
 	"(*ogen/jsonschema.Parser).wrapLocation":     "fallback when the file handed in is zero",
-	"ogen/openapi/parser.resolveComponent":       "starts from rootFile and replaces it with the resolver's file unless ctx.IsRoot(key)",
 }
 
 // checkRootFileOnlyForRoot (R11.8): while a $ref is being followed the file a
@@ -1185,6 +1184,10 @@ func checkRootFileOnlyForRoot(c *core.Ctx, prog *core.Prog) {
 		if read == token.NoPos {
 			continue
 		}
+		if rootFileReadsUnderIsRoot(f) {
+			r.Pass(fmt.Sprintf("%s reads rootFile only where ctx.IsRoot(key) holds (or replaces it on the other branch)", core.FuncName(f)))
+			continue
+		}
 		name := core.FuncName(f)
 		root := f
 		for root.Parent() != nil {
@@ -1211,6 +1214,65 @@ func checkRootFileOnlyForRoot(c *core.Ctx, prog *core.Prog) {
 			r.Fail("rootfile-in-ref-code:"+fnKeyFull(f), c.Pos(read), fmt.Sprintf("%s stamps its diagnostics with the parser's rootFile although %s: for an object reached through a $ref into another file the error names the root document with the other file's line and column", f.Name(), via))
 		}
 	}
+}
+
+// rootFileReadsUnderIsRoot: every use of every value loaded from the rootFile field in f happens where a
+// (*ResolveCtx).IsRoot test of f is known true: the using instruction is dominated by the true edge, or it is a phi and
+// the loaded value arrives over an edge whose source is dominated by the true edge (the other branch replaces it).
+func rootFileReadsUnderIsRoot(f *ssa.Function) bool {
+	var trueBlocks []*ssa.BasicBlock
+	for _, call := range core.Calls(f) {
+		cal := call.Common().StaticCallee()
+		if cal == nil || cal.Name() != "IsRoot" || cal.Signature.Recv() == nil || !strings.HasSuffix(cal.Signature.Recv().Type().String(), "jsonpointer.ResolveCtx") {
+			continue
+		}
+		if v, ok := call.(ssa.Value); ok {
+			trueBlocks = append(trueBlocks, core.EdgeBlocks(v, true)...)
+		}
+	}
+	if len(trueBlocks) == 0 {
+		return false
+	}
+	under := func(b *ssa.BasicBlock) bool {
+		for _, tb := range trueBlocks {
+			if tb == b || tb.Dominates(b) {
+				return true
+			}
+		}
+		return false
+	}
+	n := 0
+	for _, b := range f.Blocks {
+		for _, in := range b.Instrs {
+			fa, ok := in.(*ssa.FieldAddr)
+			if !ok || fieldName(fa.X.Type(), fa.Field) != "rootFile" {
+				continue
+			}
+			for _, ref := range *fa.Referrers() {
+				ld, ok := ref.(*ssa.UnOp)
+				if !ok || ld.Op != token.MUL {
+					return false // a store or an address that escapes: not this idiom
+				}
+				for _, use := range *ld.Referrers() {
+					n++
+					switch u := use.(type) {
+					case *ssa.DebugRef:
+					case *ssa.Phi:
+						for i, e := range u.Edges {
+							if e == ssa.Value(ld) && !under(u.Block().Preds[i]) {
+								return false
+							}
+						}
+					default:
+						if !under(use.Block()) {
+							return false
+						}
+					}
+				}
+			}
+		}
+	}
+	return n > 0
 }
 
 // derefsParamAtEntry: the function dereferences its i-th parameter in its
